@@ -597,6 +597,8 @@ def run(rep):
     lemma_shape(rep, F, L)
     lemma_matrix(rep, F, L)
     lemma_lockstep(rep, F, L)
+    import c07
+    panic.LOCKSTEP_PAIR_IDS = {(r[1], r[0]) for r in c07.lockstep_roles(F).values()}
     panic.LOCKSTEP_OK = L.ok["L-LOCKSTEP"]
     run_panic(rep, F, ["OPT", "MATCH", "VALIDATE"], floor=68, extra_rules=make_rules(F, L))
     rep.extra["lemmas"] = dict(L.ok)
